@@ -1,6 +1,7 @@
 import Casket.Proofs.FileServe
 import Casket.Proofs.Cond
 import Casket.Proofs.FileServeSeq
+import Casket.Proofs.FileServeSites
 import Casket.Generated.FileServe
 /-
 C02 — Served file content stays inside the root and never includes hidden files; redirects
@@ -165,6 +166,51 @@ theorem C02_seq_model_verdict_ok (fs : FS) (site : Site) (steps : List Step)
     verdictSeq site 0 fs steps (run site fs steps) = "ok" :=
   run_verdict_ok site steps fs 0 hroot hp hrd
 
+/-! ### Several sites loaded from one Casketfile
+
+`InspectServerBlocks` makes one site configuration per ADDRESS of every server block;
+`hideCasketfile` is ONE walk over all of them after the `root` directives have run
+(`FileServeSites.hideAll`).  What a site answers must depend on what ITS block means, not on how
+many other sites the file defines, where they stand, or whether their roots contain the
+Casketfile. -/
+
+open Casket.FileServeSites Casket.FileServeSitesProofs in
+/-- The walk gives every site configuration exactly `hideCasketfile` of its own root: a
+configuration whose root does not contain the Casketfile is skipped, it does not end the walk. -/
+theorem C02_sites_hide_per_site (cf : Bytes) (roots : List Bytes) :
+    hideAll cf roots = roots.map (fun r => hideCasketfile r cf) :=
+  hideAll_eq_map cf roots
+
+open Casket.FileServeSites Casket.FileServeSitesProofs in
+/-- Order and neighbours are irrelevant: in a Casketfile whose addresses are pairwise different,
+EVERY address of EVERY block selects the site that consists of that block's own meaning and of
+`hideCasketfile` applied to that block's root — the other blocks do not occur in the answer. -/
+theorem C02_sites_order_irrelevant (enc : List (Bytes × Bytes)) (cf : Bytes) (blocks : List Block)
+    (b : Block) (h : Bytes) (hnd : ((configs blocks).map (·.1)).Nodup) (hb : b ∈ blocks) (hh : h ∈ b.hosts) :
+    siteOf enc cf blocks h = some (mkSite enc b (hideCasketfile b.root cf)) :=
+  siteOf_of_mem enc cf blocks b h hnd hb hh
+
+open Casket.FileServeSites Casket.FileServeSitesProofs in
+/-- Hence the Casketfile is on the hide list of every address of every block whose root contains
+it, wherever the block stands (with `C02_static_not_hidden`, `C02_listing_excludes_hidden`,
+`C02_archive_inside_dir_excludes_hidden`: never served, listed or archived there). -/
+theorem C02_sites_casketfile_hidden (fs : FS) (enc : List (Bytes × Bytes)) (blocks : List Block)
+    (b : Block) (h rel : Bytes) (e : Entry)
+    (hnd : ((configs blocks).map (·.1)).Nodup) (hb : b ∈ blocks) (hh : h ∈ b.hosts)
+    (hrel : rel ≠ []) (ho : dirOpen fs (rootElems b.root) rel = .ok e) :
+    ∃ s, siteOf enc (b.root ++ rel) blocks h = some s ∧ isHidden fs s.root s.hide e.ino = true :=
+  ⟨_, siteOf_of_mem enc _ blocks b h hnd hb hh,
+   C02_casketfile_hidden fs (rootElems b.root) b.root rel e hrel ho⟩
+
+open Casket.FileServeSites Casket.FileServeSitesProofs in
+/-- The judged predicate for a server with several sites (stream `c02.sites`): whichever site the
+Host selects, the model's answer passes `FileServeSpec.verdict` for THAT site. -/
+theorem C02_sites_model_verdict_ok (fs : FS) (enc : List (Bytes × Bytes)) (cf : Bytes) (blocks : List Block)
+    (host method target ae : Bytes) (s : Site) (hs : siteOf enc cf blocks host = some s)
+    (hroot : NormalSegs s.root) (hp : NormalPrefix s.pathPrefix) (hrd : RootIsDir fs s) :
+    verdict fs s target ae (serveSites fs enc cf blocks host method target ae) = "ok" :=
+  serveSites_verdict_ok fs enc cf blocks host method target ae s hs hroot hp hrd
+
 /-- The encodings and index pages the model uses by default are the lists in fileserver.go
 (regenerated on every run): three encodings whose extensions start with a dot, six index names
 without a slash. -/
@@ -235,5 +281,33 @@ is the hidden one (serving it is `bad:hidden`), the old inode 6 no longer is -/
 example : hidden (Casket.FileServeSeq.applyStep exFS (.write [b! "site", b! "Casketfile"] 60)) exSite 60 = true
     ∧ hidden (Casket.FileServeSeq.applyStep exFS (.write [b! "site", b! "Casketfile"] 60)) exSite 6 = false
     ∧ hidden exFS exSite 6 = true := by decide
+
+/-! (tests, several sites) `docs` (root `/out`, which does not contain the Casketfile) stands BEFORE
+`app` (root `/site`, which does): both addresses of `app` hide the Casketfile, in either order of
+the blocks; with a walk that RETURNS at the first root not containing the Casketfile (not the code,
+`hideAllReturning`) the later site would get an empty hide list and serve its own Casketfile. -/
+def exBlocks : List Casket.FileServeSites.Block := [
+  { hosts := [b! "docs"], root := b! "/out", indexPages := [b! "index.html"], pathPrefix := b! "/", browse := [] },
+  { hosts := [b! "app", b! "www"], root := b! "/site", indexPages := [b! "index.html"], pathPrefix := b! "/",
+    browse := [{ scope := b! "/", archives := [b! "tar"] }] }]
+
+open Casket.FileServeSites in
+example : ((configs exBlocks).map (·.1)).Nodup := by decide
+open Casket.FileServeSites in
+example : serveSites exFS [(b! "gzip", b! ".gz")] (b! "/site/Casketfile") exBlocks (b! "www") mGET (b! "/Casketfile") [] = .status 404
+    ∧ serveSites exFS [(b! "gzip", b! ".gz")] (b! "/site/Casketfile") exBlocks.reverse (b! "www") mGET (b! "/Casketfile") [] = .status 404
+    ∧ serveSites exFS [(b! "gzip", b! ".gz")] (b! "/site/Casketfile") exBlocks (b! "app") mGET (b! "/") [] = .listing [b! "a", b! "a.gz", b! "d"]
+    ∧ serveSites exFS [(b! "gzip", b! ".gz")] (b! "/site/Casketfile") exBlocks (b! "nobody") mGET (b! "/a") [] = .status 404 := by decide
+
+open Casket.FileServeSites in
+/-- What `C02_sites_hide_per_site` rests on: `return nil` in place of "skip this site" leaves every
+later site without its hide entry, and such a site serves its Casketfile (judged `bad:hidden`). -/
+theorem C02_sites_early_return_fails_witness :
+    hideAll (b! "/site/Casketfile") [b! "/out", b! "/site"] = [[], [b! "/Casketfile"]]
+    ∧ hideAllReturning (b! "/site/Casketfile") [b! "/out", b! "/site"] = [[], []]
+    ∧ hideAllReturning (b! "/site/Casketfile") [b! "/site", b! "/out"] = [[b! "/Casketfile"], []]
+    ∧ serve exFS { exSite with hide := [] } mGET (b! "/Casketfile") [] = .file 6 none
+    ∧ verdict exFS exSite (b! "/Casketfile") [] (.file 6 none) = "bad:hidden:body is the content of a hidden file" := by
+  decide
 
 end Casket.Props.C02
